@@ -65,6 +65,7 @@ def dispatch (line : String) : String :=
       | "escape" => handleEscape args
       | "owner" => handleOwner args
       | "target" => handleTarget args
+      | "targets" => handleTargets args
       | "match-key" => handleMatchKey args
       | "check-run" => handleCheckRun args
       | "conc-append" => handleConcAppend args
